@@ -19,6 +19,19 @@ class Exit:
         return f"{self.kind}@{getattr(self.node, 'lineno', '?')}[{self.lo},{self.hi}]"
 
 
+def explicit_skips(stmts):
+    """A block whose last statement is `if T: REST` (no else) as `if not T: continue` followed by REST, recursively: the
+    path that skips REST becomes an exit of its own, with its condition (fall-off exits carry none)."""
+    import copy
+    stmts = list(stmts)
+    if stmts and isinstance(stmts[-1], ast.If) and not stmts[-1].orelse:
+        last = stmts[-1]
+        skip = ast.copy_location(ast.If(test=ast.copy_location(ast.UnaryOp(op=ast.Not(), operand=copy.deepcopy(last.test)), last.test),
+                                        body=[ast.copy_location(ast.Continue(), last)], orelse=[]), last)
+        return stmts[:-1] + [skip] + explicit_skips(last.body)
+    return stmts
+
+
 class PathCounter:
     """is_event(node) is consulted on every statement and on every expression node in it."""
 
